@@ -63,7 +63,15 @@ func (l *FListener) Close() error {
 	}
 	l.closed = true
 	close(l.done)
-	return nil
+	// connections still waiting in the backlog are refused, as a kernel does when a listening socket is closed
+	for {
+		select {
+		case t := <-l.queue:
+			_ = t.Close()
+		default:
+			return nil
+		}
+	}
 }
 
 var ErrRefused = errors.New("flistener: connection refused")
